@@ -1,5 +1,8 @@
 import Driver.Common
+import Driver.AstJson
+import Driver.SchemaJson
 import GqlModel.PlanCache
+import GqlModel.Normalize
 /-! Driver for C06.  All byte strings travel hex-encoded (queries may contain any byte).
 
 History request
@@ -11,6 +14,9 @@ History request
    "keys":[hex…], "len":n, "hits":h, "misses":m}
 The stored "result" is the index of the operation that built it (`build := fun _ _ _ => i` at step i), so the
 harness can check that a hit hands back exactly the plan that operation stored.
+
+Normaliser request   {"norm":{"schema":<gq.SchemaDesc>,"doc":<astjson document>,"opName":str}}
+→ {"out":"na"|"rooterr"|"ok","printed":text of the normalised document,"synth":{name: wire value}}   (GqlModel.Normalize)
 
 Fingerprint request  {"fp":{"frags":[…],"op":{…},"opName":hex}} → {"fp":hex,"bytes":hex}  (see decoders below). -/
 open Lean GqlModel.PlanCache
@@ -217,10 +223,24 @@ def handleFp (j : Json) : Except String Json := do
   return Json.mkObj [("fp", Json.str (String.ofList ((fingerprint frags o opName fuel).map (fun b => Char.ofNat b.toNat)))),
     ("bytes", Json.str (enhex bytes))]
 
+def handleNorm (j : Json) : Except String Json := do
+  let s ← Driver.SchemaJson.decSchema (← j.getObjVal? "schema")
+  let doc ← Driver.AstJson.decDocument (← j.getObjVal? "doc")
+  let opName ← Driver.getStr j "opName"
+  match GqlModel.Normalize.normalizeDocument s doc opName with
+  | .notApplicable => return Json.mkObj [("out", "na")]
+  | .rootError => return Json.mkObj [("out", "rooterr")]
+  | .ok d synth =>
+    return Json.mkObj [("out", "ok"), ("printed", Json.str (GqlModel.Printer.print d)),
+      ("synth", Json.mkObj (synth.map (fun (k, v) => (k, Driver.SchemaJson.encJVal v))))]
+
 def handle (j : Json) : Except String Json :=
   match Driver.getOpt j "fp" with
   | some f => handleFp f
-  | none => handleHistory j
+  | none =>
+    match Driver.getOpt j "norm" with
+    | some n => handleNorm n
+    | none => handleHistory j
 
 end Driver.C06
 
